@@ -1,1 +1,46 @@
-From PyecoreV Require Import Model.Kernel.
+(* C07 — delete() leaves no dangling reference and touches nothing else.
+   Statements only; proofs in Proofs/C07Proofs.v over Model/Kernel.v
+   (EObject.delete with its recursive part, the walk over own references and
+   inverse-reference entries, and every removal procedure it calls).
+   Proved, for every state, object, fuel and choice of recursive:
+   * delete never creates a reference: slot by slot, every object reference
+     present afterwards was present before ("touches nothing else", additive half);
+   * the deleted object's own references are all empty afterwards.
+   REFUTED (known finding F-C07-nonunique-duplicate-target): a non-unique
+   reference without opposite that holds the deleted object twice keeps one
+   occurrence — witness below, replayed on the implementation by the check.
+   PARTIAL: "no survivor holds a deleted object" for unique/single references
+   and "other slots unchanged exactly" need the inverse-bookkeeping and
+   symmetry invariants along the history; carried by the correspondence and
+   the before/after oracle of harness/props/c07.py. *)
+From Coq Require Import ZArith List Bool Arith.
+From PyecoreV Require Import Lib.PyBase Lib.PyList Model.Kernel Proofs.C07Proofs.
+Import ListNotations.
+
+Theorem C07_delete_never_adds_a_reference_partial :
+  forall m fuel s x r, shrinks s (delete_obj fuel m s x r).
+Proof. exact delete_only_removes. Qed.
+Print Assumptions C07_delete_never_adds_a_reference_partial.
+
+Theorem C07_deleted_object_holds_no_reference_partial :
+  forall m fuel s x r f b,
+    In f (ref_feats m x) ->
+    ~ In (VObj b) (vals (delete_obj (S fuel) m s x r) (x, f)).
+Proof. exact delete_empties_own_references. Qed.
+Print Assumptions C07_deleted_object_holds_no_reference_partial.
+
+(* a non-unique reference without opposite (EList) holding the target twice *)
+Definition ex_mm : mm :=
+  {| feats := [ {| f_owner := 0; f_isref := true; f_many := true; f_unique := false; f_cont := false;
+                   f_opp := None; f_type := TClass 1; f_default := VNone |} ];
+     conf := [(0, 0); (1, 1)]; ocls := [0; 1]; enames := []; nres := 0 |}.
+
+Example C07_dangling_after_delete_refuted :
+  let s := fold_left (next ex_mm) [OExtend 0 0 [VObj 1; VObj 1]; ODelete 1 true] (init_state ex_mm) in
+  vals s (0, 0) = [VObj 1].
+Proof. vm_compute. reflexivity. Qed.
+
+Example C07_witness :
+  let s := fold_left (next ex_mm) [OAppend 0 0 (VObj 1); ODelete 1 true] (init_state ex_mm) in
+  vals s (0, 0) = [].
+Proof. vm_compute. reflexivity. Qed.
